@@ -220,6 +220,10 @@ impl Prop for C17 {
         vec![("ub:realloc", tier.pick(800, 24_000)), ("ub:exact-fit", tier.pick(300, 9000)), ("ub:over-budget", tier.pick(300, 9000))]
     }
 
+    fn fuzz_targets(&self) -> Vec<(&'static str, u64)> {
+        vec![("fuzz_sorter", 40_000), ("fuzz_cursor", 25_000)]
+    }
+
     fn run(&self, case: &Case, obs: &mut Obs) -> Check {
         if !alloccheck::installed() {
             fail!("c17:harness", "the checking allocator is not installed in this binary");
